@@ -271,13 +271,25 @@ def eq(a, b):
     return a == b
 
 
-def copy_value(v):
-    if isinstance(v, list):
-        return [copy_value(x) for x in v]
-    if isinstance(v, dict):
-        return {k: copy_value(x) for k, x in v.items()}
+def copy_value(v, memo=None):
+    """Independent copy of a value; a container that occurs several times inside v occurs as ONE container in the copy."""
+    if memo is None:
+        memo = {}
+    if isinstance(v, (list, dict)):
+        if id(v) in memo:
+            return memo[id(v)][0]
+        if isinstance(v, list):
+            out = []
+            memo[id(v)] = (out, v)
+            out.extend(copy_value(x, memo) for x in v)
+        else:
+            out = {}
+            memo[id(v)] = (out, v)
+            for k, x in v.items():
+                out[k] = copy_value(x, memo)
+        return out
     if isinstance(v, tuple):
-        return tuple(copy_value(x) for x in v)
+        return tuple(copy_value(x, memo) for x in v)
     return v
 
 
